@@ -395,7 +395,7 @@ func inboundCase(rt *rapid.T, prop string, f inboundFlags) {
 	actions := map[string]func(*rapid.T){
 		"brokerSend": func(rt *rapid.T) {
 			c := h.Current()
-			if c == nil || !c.State.Accepted || c.Blackholed() {
+			if c == nil || !c.Accepted() || c.Blackholed() {
 				rt.Skip("no accepted connection")
 			}
 			qos := byte(rapid.SampledFrom(levels).Draw(rt, "qos"))
@@ -569,7 +569,7 @@ func inboundCase(rt *rapid.T, prop string, f inboundFlags) {
 // brokerSendBase is brokerSend with an identifier base.
 func (h *H) brokerSendBase(qos byte, payloadLen int, base uint16) *refmqtt.OutMsg {
 	c := h.Current()
-	if c == nil || !c.State.Accepted {
+	if c == nil || !c.Accepted() {
 		return nil
 	}
 	h.nTopic++
